@@ -169,6 +169,17 @@ def run(rep, tier, rng):
                             add(f"check_sp_bmat {cq(vec, voc)} {c.b(swap)} {tol} {obs_t(o, algs.enc_mat)}",
                                 dict(base, op="binding-matrix", py=f"{nm}.get_binding_matrix(swap_inputs={swap})", pyab=pyab, obs=repr(o)[:300]),
                                 ("bmat", al, d, tuple(vec), voc, swap))
+                            # the caller may do what it likes with the matrix it was handed: the next request is unaffected
+                            if o[0] == "ok" and isinstance(o[1], np.ndarray):
+                                try:
+                                    o[1][...] = 7.0
+                                except ValueError:
+                                    pass
+                                o2 = c.observe(lambda: p.get_binding_matrix(swap_inputs=swap))
+                                add(f"check_sp_bmat {cq(vec, voc)} {c.b(swap)} {tol} {obs_t(o2, algs.enc_mat)}",
+                                    dict(base, op="binding-matrix-after-caller-modified-the-previous-one",
+                                         py=f"{nm}.get_binding_matrix(swap_inputs={swap})[...] = 7.0; r = {nm}.get_binding_matrix(swap_inputs={swap})", pyab=pyab, obs=repr(o2)[:300]),
+                                    ("bmat-again", al, d, tuple(vec), voc, swap))
                     check_unchanged([a, b2], snaps, "unary operators / methods")
                     # ---- numbers of every kind, both sides -----------------------
                     n = rng.choice([-3, -2, 2, 3])
@@ -220,6 +231,60 @@ def run(rep, tier, rng):
                     if p.v[0] == 12345.0:
                         rep.violation("SemanticPointer aliases the array passed to its constructor",
                                       {"case": {"alg": al}, "python": PRE + f"src = np.array({x}, float); p = SemanticPointer(src); src[0] = 12345.0\nassert p.v[0] != 12345.0\n"})
+
+            # ---- the special-element subclasses are Semantic Pointers: every operator / method works on them ----------
+            from nengo_spa import semantic_pointer as spm
+            specials = [("Zero", lambda: spm.Zero(d, algebra=A), [0] * d)]
+            if al == "AHrr":
+                specials += [("Identity", lambda: spm.Identity(d, algebra=A), [1] + [0] * (d - 1)),
+                             ("NegativeIdentity", lambda: spm.NegativeIdentity(d, algebra=A), [-1] + [0] * (d - 1)),
+                             ("Identity(vocab)", lambda: spm.Identity(d, vocab=vocs[0]), [1] + [0] * (d - 1))]
+            y = algs.rand_vec(rng, d, -4, 4)
+            q = mk(y, None, "Q")
+            for snm, ctor, vec in specials:
+                voc = 0 if "vocab" in snm else None
+                sp_ = ctor()
+                tol = algs.tol_for(vec, y, d=d)
+                base = {"alg": al, "d": d, "x": vec, "y": y, "va": voc, "vb": None, "named": True}
+                pyab = f"a = spa.semantic_pointer.{snm.split('(')[0]}({d}, {'vocab=vocs[0]' if voc == 0 else 'algebra=A'}); b = SemanticPointer(np.array({y}, float), algebra=A)"
+                for opn, term, fn, enc in [
+                        ("copy", f"check_sp_copy {cq(vec, voc)} {tol}", lambda: sp_.copy(), enc_ptr),
+                        ("neg", f"check_sp_neg {cq(vec, voc)} {tol}", lambda: -sp_, enc_ptr),
+                        ("normalized", f"check_sp_normalized {cq(vec, voc)} {tol}", lambda: sp_.normalized(), enc_ptr),
+                        ("length", f"check_sp_length {cq(vec, voc)} {tol}", lambda: sp_.length(), enc_num),
+                        ("invert-STwo", f"check_sp_invert {cq(vec, voc)} STwo {tol}", lambda: ~sp_, enc_ptr),
+                        ("ptr+ptr", f"check_sp_bin {cdims} BAdd {cq(vec, voc)} (optr {cq(y, None)}) false {tol}", lambda: sp_ + q, enc_ptr),
+                        ("ptr*ptr", f"check_sp_bin {cdims} BMul {cq(vec, voc)} (optr {cq(y, None)}) false {tol}", lambda: sp_ * q, enc_ptr),
+                        ("__rmul__", f"check_sp_bin {cdims} BMul {cq(y, None)} (optr {cq(vec, voc)}) false {tol}", lambda: q * sp_, enc_ptr)]:
+                    if al != "AHrr" and opn == "invert-STwo" and al == "AVtb":
+                        continue
+                    o = c.observe(fn)
+                    add(f"{term} {obs_t(o, enc)}",
+                        dict(base, op=f"{opn} on {snm}", py={"copy": "a.copy()", "neg": "-a", "normalized": "a.normalized()", "length": "a.length()",
+                                                           "invert-STwo": "~a", "ptr+ptr": "a + b", "ptr*ptr": "a * b", "__rmul__": "b * a"}[opn],
+                             pyab=pyab, obs=repr(o)[:300]), ("special", snm, opn, al, d))
+            # ---- operands of unequal length never combine (also when one has length 1, which NumPy would broadcast) -----
+            if d > 1:
+                x = algs.rand_vec(rng, d, 1, 4)
+                a_ = mk(x, None, "A")
+                for ylen in (1, d + 1):
+                    yv = algs.rand_vec(rng, ylen, 1, 4)
+                    b_ = SemanticPointer(algs.fl(yv), algebra=A)
+                    tol = algs.tol_for(x, yv, d=d)
+                    base = {"alg": al, "d": d, "x": x, "y": yv, "va": None, "vb": None, "named": True}
+                    pyab = f"a = SemanticPointer(np.array({x}, float), algebra=A); b = SemanticPointer(np.array({yv}, float), algebra=A)"
+                    for opn, fn in [("a + b", lambda: a_ + b_), ("b + a", lambda: b_ + a_), ("a - b", lambda: a_ - b_), ("a * b", lambda: a_ * b_),
+                                    ("a.dot(b)", lambda: a_.dot(b_)), ("a.mse(b)", lambda: a_.mse(b_)), ("b.mse(a)", lambda: b_.mse(a_)),
+                                    ("a.compare(b)", lambda: a_.compare(b_))]:
+                        o = c.observe(fn)
+                        rep.case(("unequal", opn, al, d, ylen))
+                        rep.count("unequal-lengths")
+                        if o[0] == "ok":
+                            rep.violation(f"SemanticPointer {opn} with operands of lengths {d} and {ylen} ({al}) returned a value instead of raising",
+                                          {"case": dict(base, op=opn), "observed": repr(o[1])[:200],
+                                           "python": PRE + f"A = {algs.alg_py(al)}\n{pyab}\ntry:\n    r = {opn}\nexcept (ValueError, TypeError):\n    r = None\n"
+                                           "assert r is None, ('operands of unequal length combined', r)\n",
+                                           "expected": "Model/SemPtr.v sp_add_ptr / sp_bind_ptr: unequal lengths are an error"})
 
     verdicts = c.coq_eval("C07", "cases", IMPORTS, exprs, shard=200)
     for ok, m in zip(verdicts, meta):
